@@ -86,7 +86,7 @@ def _fold(e, env, what, res, key, file, line, fn):
     return None
 
 
-def cpprange(facts: CppFacts):
+def cpprange(facts: CppFacts, parts=("write", "mask", "keepmask")):
     res = RuleResult("R-CPPRANGE")
 
     def method(cls, name):
@@ -122,175 +122,252 @@ def cpprange(facts: CppFacts):
         e = X.parse(_return_expr(m), type_names=TYPES)
         return m, _conjuncts(e)
 
-    # ---- UIntView --------------------------------------------------------------------------------------
-    m, conj = split("UIntView")
-    lows, highs, other = [], [], []
-    for c in conj:
-        b = _bound_of(c, "value")
-        if b and b[0] in (">=", ">"):
-            lows.append(b)
-        elif b:
-            highs.append(b)
-        elif not _is_value_ok(c):
-            other.append(c)
-    if other or len(highs) != 1 or len(lows) != 1:
-        raise AnalysisError(f"UIntView::CouldWriteValue: unrecognised conjunct structure ({len(lows)} lower, {len(highs)} upper, {len(other)} other)")
-    for k in range(1, 65):
-        vt = X.T(False, _least(k))
-        env = env_for(vt, k)
-        res.instances += 2
-        key = f"{m.file}|UIntView::CouldWriteValue|k={k}"
-        hi = _fold(highs[0][1], env, f"UIntView<{k}> upper bound", res, key, m.file, m.line, "UIntView::CouldWriteValue")
-        lo = _fold(lows[0][1], env, f"UIntView<{k}> lower bound", res, key, m.file, m.line, "UIntView::CouldWriteValue")
-        if hi is not None:
-            # the comparison is made after converting both sides to a common type with static_cast<uint64_t>(value)
-            hv = X.convert(hi, X.ULONG).v if hi.v >= 0 else None
-            want = (1 << k) - 1
-            got = hv if highs[0][0] == "<=" else (hv - 1 if hv is not None else None)
-            if got != want:
-                res.add(key + "|max", f"UIntView of {k} bits accepts values up to {got} (bound folds to {hi}); a {k}-bit unsigned field "
-                        f"holds 0..{want}", m.file, m.line, "UIntView::CouldWriteValue")
-        if lo is not None:
-            got = lo.v if lows[0][0] == ">=" else lo.v + 1
-            if got != 0:
-                res.add(key + "|min", f"UIntView of {k} bits accepts values from {got}; must be 0", m.file, m.line, "UIntView::CouldWriteValue")
+    if "write" in parts:
+        # ---- UIntView --------------------------------------------------------------------------------------
+        m, conj = split("UIntView")
+        lows, highs, other = [], [], []
+        for c in conj:
+            b = _bound_of(c, "value")
+            if b and b[0] in (">=", ">"):
+                lows.append(b)
+            elif b:
+                highs.append(b)
+            elif not _is_value_ok(c):
+                other.append(c)
+        if other or len(highs) > 1 or len(lows) > 1:
+            raise AnalysisError(f"UIntView::CouldWriteValue: unrecognised conjunct structure ({len(lows)} lower, {len(highs)} upper, {len(other)} other)")
+        if not highs:
+            res.add(f"{m.file}|UIntView::CouldWriteValue|no-upper-bound", "UIntView::CouldWriteValue compares the value with no upper bound: "
+                    "values that do not fit the field are accepted and truncated", m.file, m.line, "UIntView::CouldWriteValue")
+        if not lows:
+            res.add(f"{m.file}|UIntView::CouldWriteValue|no-lower-bound", "UIntView::CouldWriteValue has no `value >= 0` conjunct: the upper "
+                    "bound is tested after static_cast<uint64_t>, so for a 64-bit field (bound 2^64-1) every negative signed argument "
+                    "is accepted and stored as a huge value", m.file, m.line, "UIntView::CouldWriteValue")
+        for k in range(1, 65):
+            vt = X.T(False, _least(k))
+            env = env_for(vt, k)
+            res.instances += 2
+            key = f"{m.file}|UIntView::CouldWriteValue|k={k}"
+            hi = _fold(highs[0][1], env, f"UIntView<{k}> upper bound", res, key, m.file, m.line, "UIntView::CouldWriteValue") if highs else None
+            lo = _fold(lows[0][1], env, f"UIntView<{k}> lower bound", res, key, m.file, m.line, "UIntView::CouldWriteValue") if lows else None
+            if hi is not None:
+                # the comparison is made after converting both sides to a common type with static_cast<uint64_t>(value)
+                hv = X.convert(hi, X.ULONG).v if hi.v >= 0 else None
+                want = (1 << k) - 1
+                got = hv if highs[0][0] == "<=" else (hv - 1 if hv is not None else None)
+                if got != want:
+                    res.add(key + "|max", f"UIntView of {k} bits accepts values up to {got} (bound folds to {hi}); a {k}-bit unsigned field "
+                            f"holds 0..{want}", m.file, m.line, "UIntView::CouldWriteValue")
+            if lo is not None:
+                got = lo.v if lows[0][0] == ">=" else lo.v + 1
+                if got != 0:
+                    res.add(key + "|min", f"UIntView of {k} bits accepts values from {got}; must be 0", m.file, m.line, "UIntView::CouldWriteValue")
 
-    # ---- IntView ---------------------------------------------------------------------------------------
-    m, conj = split("IntView")
-    lows, highs, other = [], [], []
-    for c in conj:
-        b = _bound_of(c, "value")
-        if b is None and c[0] == "bin" and c[1] == "||":
-            # !is_signed<IntT> || value >= E : the lower bound applies to signed argument types
-            l, r = c[2], c[3]
-            bb = _bound_of(r, "value")
-            if bb and not _mentions(l, "value"):
-                b = bb
-        if b and b[0] in (">=", ">"):
-            lows.append(b)
-        elif b:
-            highs.append(b)
-        elif not _is_value_ok(c):
-            other.append(c)
-    if other or len(highs) != 1 or len(lows) != 1:
-        raise AnalysisError(f"IntView::CouldWriteValue: unrecognised conjunct structure ({len(lows)} lower, {len(highs)} upper, {len(other)} other)")
-    for k in range(1, 65):
-        vt = X.T(True, _least(k))
-        env = env_for(vt, k)
-        res.instances += 2
-        key = f"{m.file}|IntView::CouldWriteValue|k={k}"
-        hi = _fold(highs[0][1], env, f"IntView<{k}> upper bound", res, key, m.file, m.line, "IntView::CouldWriteValue")
-        lo = _fold(lows[0][1], env, f"IntView<{k}> lower bound", res, key, m.file, m.line, "IntView::CouldWriteValue")
-        if hi is not None:
-            got = hi.v if highs[0][0] == "<=" else hi.v - 1
-            want = (1 << (k - 1)) - 1
-            if got != want:
-                res.add(key + "|max", f"IntView of {k} bits accepts values up to {got}; a {k}-bit two's complement field holds up to {want}",
-                        m.file, m.line, "IntView::CouldWriteValue")
-        if lo is not None:
-            got = lo.v if lows[0][0] == ">=" else lo.v + 1
-            want = -(1 << (k - 1))
-            if got != want:
-                res.add(key + "|min", f"IntView of {k} bits accepts values from {got}; a {k}-bit two's complement field starts at {want}",
-                        m.file, m.line, "IntView::CouldWriteValue")
+        # ---- IntView ---------------------------------------------------------------------------------------
+        m, conj = split("IntView")
+        lows, highs, other = [], [], []
+        for c in conj:
+            b = _bound_of(c, "value")
+            if b is None and c[0] == "bin" and c[1] == "||":
+                # !is_signed<IntT> || value >= E : the lower bound applies to signed argument types
+                l, r = c[2], c[3]
+                bb = _bound_of(r, "value")
+                if bb and not _mentions(l, "value"):
+                    b = bb
+            if b and b[0] in (">=", ">"):
+                lows.append(b)
+            elif b:
+                highs.append(b)
+            elif not _is_value_ok(c):
+                other.append(c)
+        if other or len(highs) > 1 or len(lows) > 1:
+            raise AnalysisError(f"IntView::CouldWriteValue: unrecognised conjunct structure ({len(lows)} lower, {len(highs)} upper, {len(other)} other)")
+        for missing, what in ((not highs, "upper"), (not lows, "lower")):
+            if missing:
+                res.add(f"{m.file}|IntView::CouldWriteValue|no-{what}-bound", f"IntView::CouldWriteValue compares the value with no {what} bound: "
+                        "values outside the two's complement range of the field are accepted and truncated", m.file, m.line, "IntView::CouldWriteValue")
+        if not highs or not lows:
+            highs = highs or [("<=", ("lit", "0"))]
+            lows = lows or [(">=", ("lit", "0"))]
+        for k in range(1, 65):
+            vt = X.T(True, _least(k))
+            env = env_for(vt, k)
+            res.instances += 2
+            key = f"{m.file}|IntView::CouldWriteValue|k={k}"
+            hi = _fold(highs[0][1], env, f"IntView<{k}> upper bound", res, key, m.file, m.line, "IntView::CouldWriteValue")
+            lo = _fold(lows[0][1], env, f"IntView<{k}> lower bound", res, key, m.file, m.line, "IntView::CouldWriteValue")
+            if hi is not None:
+                got = hi.v if highs[0][0] == "<=" else hi.v - 1
+                want = (1 << (k - 1)) - 1
+                if got != want:
+                    res.add(key + "|max", f"IntView of {k} bits accepts values up to {got}; a {k}-bit two's complement field holds up to {want}",
+                            m.file, m.line, "IntView::CouldWriteValue")
+            if lo is not None:
+                got = lo.v if lows[0][0] == ">=" else lo.v + 1
+                want = -(1 << (k - 1))
+                if got != want:
+                    res.add(key + "|min", f"IntView of {k} bits accepts values from {got}; a {k}-bit two's complement field starts at {want}",
+                            m.file, m.line, "IntView::CouldWriteValue")
 
-    # ---- BcdView ---------------------------------------------------------------------------------------
-    m, conj = split("BcdView")
-    highs = [b for b in (_bound_of(c, "value") for c in conj) if b]
-    other = [c for c in conj if _bound_of(c, "value") is None and not _is_value_ok(c)]
-    if other or len(highs) != 1 or highs[0][0] not in ("<=", "<"):
-        raise AnalysisError("BcdView::CouldWriteValue: unrecognised conjunct structure")
-    mv = method("BcdView", "MaxValue")
-    functions["MaxValue"] = ([], X.parse(_return_expr(mv), type_names=TYPES), "ValueType", ())
-    for k in range(1, 65):
-        vt = X.T(False, _least(k))
-        env = env_for(vt, k)
-        res.instances += 1
-        key = f"{m.file}|BcdView::CouldWriteValue|k={k}"
-        hi = _fold(highs[0][1], env, f"BcdView<{k}> upper bound", res, key, m.file, m.line, "BcdView::CouldWriteValue")
-        if hi is not None:
-            n, r = divmod(k, 4)
-            want = ((1 << r) - 1) * 10 ** n + 10 ** n - 1
-            got = hi.v if highs[0][0] == "<=" else hi.v - 1
-            if got != want:
-                res.add(key + "|max", f"BcdView of {k} bits accepts values up to {got}; {n} full decimal digit(s) and a {r}-bit top "
-                        f"digit hold up to {want}", m.file, m.line, "BcdView::CouldWriteValue")
-
-    # ---- EnumView --------------------------------------------------------------------------------------
-    m, conj = split("EnumView")
-    bounds = []
-    for c in conj:
-        if _is_value_ok(c):
-            continue
-        if c[0] == "bin" and c[1] == "==" and _mentions(c, "value"):
-            continue  # round trip through the storage type (a)
-        if c[0] == "bin" and c[1] == "||" and not _mentions(c[2], "value") and _bound_of(c[3], "value"):
-            bounds.append((c[2], _bound_of(c[3], "value")))
-            continue
-        raise AnalysisError("EnumView::CouldWriteValue: unrecognised conjunct structure")
-    if len(bounds) != 1:
-        raise AnalysisError("EnumView::CouldWriteValue: no width bound found")
-    full, (op, bexpr) = bounds[0]
-    for w in (8, 16, 32, 64):
-        for k in range(1, w + 1):
-            env = env_for(X.LONG, k, bv_t=X.T(False, w))
+        # ---- BcdView ---------------------------------------------------------------------------------------
+        m, conj = split("BcdView")
+        highs = [b for b in (_bound_of(c, "value") for c in conj) if b]
+        other = [c for c in conj if _bound_of(c, "value") is None and not _is_value_ok(c)]
+        if other or len(highs) != 1 or highs[0][0] not in ("<=", "<"):
+            raise AnalysisError("BcdView::CouldWriteValue: unrecognised conjunct structure")
+        mv = method("BcdView", "MaxValue")
+        functions["MaxValue"] = ([], X.parse(_return_expr(mv), type_names=TYPES), "ValueType", ())
+        for k in range(1, 65):
+            vt = X.T(False, _least(k))
+            env = env_for(vt, k)
             res.instances += 1
-            key = f"{m.file}|EnumView::CouldWriteValue|w={w}|k={k}"
-            f_ = _fold(full, env, f"EnumView<{k} in {w}> full-width test", res, key, m.file, m.line, "EnumView::CouldWriteValue")
-            if f_ is None:
-                continue
-            if f_.v:
-                if k != w:
-                    res.add(key + "|full", f"EnumView treats a {k}-bit field in a {w}-bit block as full width: any value is accepted",
-                            m.file, m.line, "EnumView::CouldWriteValue")
-                continue
-            b = _fold(bexpr, env, f"EnumView<{k} in {w}> bound", res, key, m.file, m.line, "EnumView::CouldWriteValue")
-            if b is not None:
-                got = b.v - 1 if op == "<" else b.v
-                if got != (1 << k) - 1:
-                    res.add(key + "|max", f"EnumView of {k} bits in a {w}-bit block accepts values up to {got}; the field holds up to {(1 << k) - 1}",
-                            m.file, m.line, "EnumView::CouldWriteValue")
+            key = f"{m.file}|BcdView::CouldWriteValue|k={k}"
+            hi = _fold(highs[0][1], env, f"BcdView<{k}> upper bound", res, key, m.file, m.line, "BcdView::CouldWriteValue")
+            if hi is not None:
+                n, r = divmod(k, 4)
+                want = ((1 << r) - 1) * 10 ** n + 10 ** n - 1
+                got = hi.v if highs[0][0] == "<=" else hi.v - 1
+                if got != want:
+                    res.add(key + "|max", f"BcdView of {k} bits accepts values up to {got}; {n} full decimal digit(s) and a {r}-bit top "
+                            f"digit hold up to {want}", m.file, m.line, "BcdView::CouldWriteValue")
 
-    # ---- MaskToNBits -----------------------------------------------------------------------------------
-    mk = X.parse("MaskToNBits(probe, bits)")
-    fnm = next(f for f in facts.functions if f.name == "MaskToNBits")
-    for w in (8, 16, 32, 64):
-        t = X.T(False, w)
-        for bits in range(0, 65):
-            env = X.Env({"probe": X.V(t, t.hi), "bits": X.V(X.UINT, bits)}, {}, functions)
-            res.instances += 1
-            key = f"{fnm.file}|MaskToNBits|w={w}|bits={bits}"
-            r = _fold(mk, env, f"MaskToNBits<uint{w}_t>(~0, {bits})", res, key, fnm.file, fnm.line, "MaskToNBits")
-            if r is not None:
-                want = t.hi if bits >= w else (1 << bits) - 1
-                if r.v != want:
-                    res.add(key + "|mask", f"MaskToNBits<uint{w}_t>(all ones, {bits}) folds to {r.v:#x}; the low {bits} bits are {want:#x}",
-                            fnm.file, fnm.line, "MaskToNBits")
-
-    # ---- OffsetBitBlock::MaskInValue -------------------------------------------------------------------
-    mi = method("OffsetBitBlock", "MaskInValue")
-    body = re.sub(r"//[^\n]*", "", mi.body)
-    mm = re.search(r"\boriginal_mask\s*=\s*(.*?);", body, re.S)
-    if not mm:
-        raise AnalysisError("OffsetBitBlock::MaskInValue: original_mask not found")
-    mexpr = X.parse(mm.group(1), type_names=TYPES)
-    for w in (8, 16, 32, 64):
-        t = X.T(False, w)
-        for size in range(1, w + 1):
-            for off in range(0, w - size + 1):
-                if w == 64 and (off % 7 and size % 5):  # thin the 64-bit grid: 2 080 -> ~900 points, all edges kept
-                    if not (off in (0, 1) or off + size in (w, w - 1) or size in (1, w)):
-                        continue
-                env = X.Env({"size_": X.V(X.T(False, 8), size), "offset_": X.V(X.T(False, 8), off)}, {"ValueType": t}, functions)
+        # ---- EnumView --------------------------------------------------------------------------------------
+        m, conj = split("EnumView")
+        bounds = []
+        for c in conj:
+            if _is_value_ok(c):
+                continue
+            if c[0] == "bin" and c[1] == "==" and _mentions(c, "value"):
+                continue  # round trip through the storage type (a)
+            if c[0] == "bin" and c[1] == "||" and not _mentions(c[2], "value") and _bound_of(c[3], "value"):
+                bounds.append((c[2], _bound_of(c[3], "value")))
+                continue
+            raise AnalysisError("EnumView::CouldWriteValue: unrecognised conjunct structure")
+        if len(bounds) != 1:
+            raise AnalysisError("EnumView::CouldWriteValue: no width bound found")
+        full, (op, bexpr) = bounds[0]
+        for w in (8, 16, 32, 64):
+            for k in range(1, w + 1):
+                env = env_for(X.LONG, k, bv_t=X.T(False, w))
                 res.instances += 1
-                key = f"{mi.file}|OffsetBitBlock::MaskInValue|w={w}|off={off}|size={size}"
-                r = _fold(mexpr, env, f"MaskInValue<uint{w}_t> offset {off} size {size}", res, key, mi.file, mi.line, "OffsetBitBlock::MaskInValue")
+                key = f"{m.file}|EnumView::CouldWriteValue|w={w}|k={k}"
+                f_ = _fold(full, env, f"EnumView<{k} in {w}> full-width test", res, key, m.file, m.line, "EnumView::CouldWriteValue")
+                if f_ is None:
+                    continue
+                if f_.v:
+                    if k != w:
+                        res.add(key + "|full", f"EnumView treats a {k}-bit field in a {w}-bit block as full width: any value is accepted",
+                                m.file, m.line, "EnumView::CouldWriteValue")
+                    continue
+                b = _fold(bexpr, env, f"EnumView<{k} in {w}> bound", res, key, m.file, m.line, "EnumView::CouldWriteValue")
+                if b is not None:
+                    got = b.v - 1 if op == "<" else b.v
+                    if got != (1 << k) - 1:
+                        res.add(key + "|max", f"EnumView of {k} bits in a {w}-bit block accepts values up to {got}; the field holds up to {(1 << k) - 1}",
+                                m.file, m.line, "EnumView::CouldWriteValue")
+
+    if "mask" in parts:
+        # ---- MaskToNBits -----------------------------------------------------------------------------------
+        mk = X.parse("MaskToNBits(probe, bits)")
+        fnm = next(f for f in facts.functions if f.name == "MaskToNBits")
+        for w in (8, 16, 32, 64):
+            t = X.T(False, w)
+            for bits in range(0, 65):
+                env = X.Env({"probe": X.V(t, t.hi), "bits": X.V(X.UINT, bits)}, {}, functions)
+                res.instances += 1
+                key = f"{fnm.file}|MaskToNBits|w={w}|bits={bits}"
+                r = _fold(mk, env, f"MaskToNBits<uint{w}_t>(~0, {bits})", res, key, fnm.file, fnm.line, "MaskToNBits")
                 if r is not None:
-                    want = t.hi & ~(((1 << size) - 1) << off)
-                    if X.convert(r, t).v != want:
-                        res.add(f"{mi.file}|OffsetBitBlock::MaskInValue|w={w}|mask", f"the keep-mask for a {size}-bit field at bit {off} of a "
-                                f"{w}-bit block folds to {X.convert(r, t).v:#x}; the bits outside the field are {want:#x}: a write "
-                                "changes (or fails to clear) neighbouring bits", mi.file, mi.line, "OffsetBitBlock::MaskInValue")
+                    want = t.hi if bits >= w else (1 << bits) - 1
+                    if r.v != want:
+                        res.add(key + "|mask", f"MaskToNBits<uint{w}_t>(all ones, {bits}) folds to {r.v:#x}; the low {bits} bits are {want:#x}",
+                                fnm.file, fnm.line, "MaskToNBits")
+
+    if "keepmask" in parts:
+        # ---- OffsetBitBlock::MaskInValue -------------------------------------------------------------------
+        mi = method("OffsetBitBlock", "MaskInValue")
+        body = re.sub(r"//[^\n]*", "", mi.body)
+        mm = re.search(r"\boriginal_mask\s*=\s*(.*?);", body, re.S)
+        if not mm:
+            raise AnalysisError("OffsetBitBlock::MaskInValue: original_mask not found")
+        mexpr = X.parse(mm.group(1), type_names=TYPES)
+        for w in (8, 16, 32, 64):
+            t = X.T(False, w)
+            for size in range(1, w + 1):
+                for off in range(0, w - size + 1):
+                    if w == 64 and (off % 7 and size % 5):  # thin the 64-bit grid: 2 080 -> ~900 points, all edges kept
+                        if not (off in (0, 1) or off + size in (w, w - 1) or size in (1, w)):
+                            continue
+                    env = X.Env({"size_": X.V(X.T(False, 8), size), "offset_": X.V(X.T(False, 8), off)}, {"ValueType": t}, functions)
+                    res.instances += 1
+                    key = f"{mi.file}|OffsetBitBlock::MaskInValue|w={w}|off={off}|size={size}"
+                    r = _fold(mexpr, env, f"MaskInValue<uint{w}_t> offset {off} size {size}", res, key, mi.file, mi.line, "OffsetBitBlock::MaskInValue")
+                    if r is not None:
+                        want = t.hi & ~(((1 << size) - 1) << off)
+                        if X.convert(r, t).v != want:
+                            res.add(f"{mi.file}|OffsetBitBlock::MaskInValue|w={w}|mask", f"the keep-mask for a {size}-bit field at bit {off} of a "
+                                    f"{w}-bit block folds to {X.convert(r, t).v:#x}; the bits outside the field are {want:#x}: a write "
+                                    "changes (or fails to clear) neighbouring bits", mi.file, mi.line, "OffsetBitBlock::MaskInValue")
     res.samples = ["UIntView/IntView/BcdView bounds folded for k = 1..64; EnumView for every (block, k); MaskToNBits and MaskInValue masks"]
     res.analysed = [PRELUDE, "runtime/cpp/emboss_enum_view.h", "runtime/cpp/emboss_bit_util.h", "runtime/cpp/emboss_memory_util.h"]
+    return res
+
+
+def loopcover(facts: CppFacts, methods=("ConvertToBinary", "ConvertToBcd")):
+    """R-LOOPCOVER (C02/C03): the digit loops of BcdView visit every bit of the field.  The loop header
+    `for (int s = A; COND; s += N)` is unrolled symbolically for every width k = 1..64 (only the induction variable is
+    followed; the body is not evaluated): the nibbles [s, s+N) visited must cover bits 0..k-1, start inside the field,
+    and not repeat.  A bound such as `s + 4 <= kBits` silently drops a partial top digit (widths that are not a
+    multiple of four)."""
+    res = RuleResult("R-LOOPCOVER")
+    for mname in methods:
+        ms = facts.method("BcdView", mname)
+        if not ms:
+            raise AnalysisError(f"BcdView::{mname} vanished")
+        m = ms[0]
+        body = re.sub(r"//[^\n]*", "", m.body)
+        loops = re.findall(r"for\s*\(\s*(?:int|unsigned|::std::size_t|auto)\s+(\w+)\s*=\s*([^;]+);([^;]+);\s*([^)]+)\)", body)
+        if not loops:
+            raise AnalysisError(f"BcdView::{mname}: no counted loop found")
+        for var, init, cond, step in loops:
+            sm = re.fullmatch(r"\s*" + var + r"\s*\+=\s*(\d+)\s*|\s*\+\+" + var + r"\s*|\s*" + var + r"\+\+\s*", step)
+            if not sm:
+                raise AnalysisError(f"BcdView::{mname}: loop step `{step.strip()}` not recognised")
+            n = int(sm.group(1)) if sm.group(1) else 1
+            try:
+                cexpr = X.parse(cond, type_names=TYPES)
+                iexpr = X.parse(init, type_names=TYPES)
+            except X.Unsupported as u:
+                raise AnalysisError(f"BcdView::{mname}: {u}")
+            bad = None
+            for k in range(1, 65):
+                res.instances += 1
+                env = X.Env({"Parameters::kBits": X.V(X.INT, k)}, {"ValueType": X.T(False, _least(k))}, {})
+                try:
+                    s = X.evaluate(iexpr, env).v
+                    visited = []
+                    for _ in range(200):
+                        env.values[var] = X.V(X.INT, s)
+                        if not X.evaluate(cexpr, env).v:
+                            break
+                        visited.append(s)
+                        s += n
+                except (X.UB, X.Unsupported) as u:
+                    raise AnalysisError(f"BcdView::{mname}: {u}")
+                covered = set()
+                for s in visited:
+                    covered |= set(range(s, s + n))
+                missing = [b for b in range(k) if b not in covered]
+                outside = [s for s in visited if s >= k or s < 0]
+                if (missing or outside) and bad is None:
+                    bad = (k, visited, missing, outside)
+            if bad:
+                k, visited, missing, outside = bad
+                what = f"bits {missing} of a {k}-bit field are never visited" if missing else f"digit positions {outside} lie outside a {k}-bit field"
+                res.add(f"{m.file}|BcdView::{mname}|cover", f"BcdView::{mname}: with `{cond.strip()}` the loop visits shifts {visited} for "
+                        f"kBits = {k}: {what} (first failing width; a partial top digit is "
+                        f"{'ignored when reading' if mname == 'ConvertToBinary' else 'not written'})", m.file, m.line, f"BcdView::{mname}")
+            elif len(res.samples) < 2:
+                res.samples.append(f"BcdView::{mname}: `{cond.strip()}` step {n} covers bits 0..k-1 for k = 1..64")
+    res.analysed = [PRELUDE]
     return res
